@@ -129,7 +129,10 @@ fn gen_svc_params(r: &mut Rng) -> Vec<u8> {
             4 => { let n = 4 * (1 + r.below(3) as usize); r.bytes(n) } // ipv4hint
             5 => gen_blob(r, 40),              // ech
             6 => { let n = 16 * (1 + r.below(2) as usize); r.bytes(n) } // ipv6hint
-            7 => { let n = 1 + r.below(20) as usize; octets(r, n) } // dohpath
+            7 => { // dohpath: a UTF-8 string (RFC 9461), with characters special in zone files
+                let n = 1 + r.below(12) as usize; let mut v = Vec::new();
+                for _ in 0..n { match r.below(8) { 0 => v.extend("\u{e9}".as_bytes()), 1 => v.extend("\u{20ac}".as_bytes()), 2 | 3 => v.push(*r.pick(b" ;()\"\\,\t\n\x00\x7f{}?=/")), _ => v.push(*r.pick(b"abcdnsquery/-{}?")) } }
+                v }
             8 => vec![],                       // ohttp takes no value
             9 => { let n = 2 * (1 + r.below(3) as usize); r.bytes(n) } // tls-supported-groups: u16 list
             _ => gen_blob(r, 30),
@@ -379,18 +382,31 @@ fn svcb_drop(ps: &Params, drop: &dyn Fn(u16, &[u8]) -> bool) -> Params {
     }
     out
 }
-const SVCB_CAUSES: [&str; 4] = ["svcb_params_nodefaultalpn", "svcb_params_generic_key", "svcb_params_value_escaping", "empty_field_SVCB"];
+/// root causes; 0, 2, 3 are known findings, 1, 4, 5 are fixed in /repo (3600194, 72650b2) and must stay silent
+const SVCB_CAUSES: [&str; 7] = ["svcb_params_nodefaultalpn", "svcb_params_generic_key", "svcb_params_value_escaping", "empty_field_SVCB",
+    "svcb_params_dohpath_raw", "svcb_params_unknown_value_paren", "svcb_params_dohpath_not_utf8"];
+/// order in which a cause is tested for being necessary: the fixed ones first, so that a regression is not hidden behind a known finding
+const SVCB_NECESSITY_ORDER: [usize; 7] = [6, 4, 5, 1, 0, 2, 3];
 /// (fixed in /repo: the reader's key charset ranges were half-open, keyNNN with a 9 was rejected)
 fn key_unreadable(_k: u16) -> bool { false }
-fn value_unsafe(k: u16, v: &[u8], i: usize) -> bool {
+/// which cause an octet of a value belongs to, if it is not safe to write verbatim:
+/// 2 alpn id (still written raw; the reader refuses escapes there), 4 dohpath, 5 value of an unknown key
+fn value_unsafe(cause: usize, k: u16, v: &[u8], i: usize) -> bool {
     let b = v[i];
-    if k == 1 { !svc_safe(b) && !alpn_len_pos(v, i) } else if k == 7 { !svc_safe(b) } else if k > 9 { !b.is_ascii_alphanumeric() } else { false }
+    match cause {
+        2 => k == 1 && !svc_safe(b) && !alpn_len_pos(v, i),
+        4 => k == 7 && !svc_safe(b) && std::str::from_utf8(v).is_ok(),
+        5 => k > 9 && !b.is_ascii_alphanumeric(),
+        _ => false,
+    }
 }
 fn svcb_has(cause: usize, ps: &Params) -> bool {
     match cause {
         0 => ps.iter().any(|(k, _)| *k == 2),
         1 => ps.iter().any(|(k, v)| key_unreadable(*k) || (*k == 0 && mandatory_keys(v).iter().any(|m| key_unreadable(*m)))),
-        2 => ps.iter().any(|(k, v)| (0..v.len()).any(|i| value_unsafe(*k, v, i))),
+        2 | 4 | 5 => ps.iter().any(|(k, v)| (0..v.len()).any(|i| value_unsafe(cause, *k, v, i))),
+        // the wire parser takes any octets as a dohpath, the zone-file reader insists on UTF-8 (RFC 9461: a URI template)
+        6 => ps.iter().any(|(k, v)| *k == 7 && std::str::from_utf8(v).is_err()),
         _ => ps.iter().any(|(k, v)| v.is_empty() && *k != 2 && *k != 8) || ps.iter().any(|(k, v)| *k == 1 && alpn_has_empty_id(v)),
     }
 }
@@ -400,21 +416,23 @@ fn svcb_repair(cause: usize, ps: &Params) -> Params {
     match cause {
         0 => svcb_drop(ps, &|k, _| k == 2),
         1 => svcb_drop(ps, &|k, _| key_unreadable(k)),
-        2 => ps.iter().map(|(k, v)| (*k, (0..v.len()).map(|i| if value_unsafe(*k, v, i) { b'a' } else { v[i] }).collect())).collect(),
+        6 => ps.iter().map(|(k, v)| (*k, if *k == 7 && std::str::from_utf8(v).is_err() { vec![b'a'; v.len()] } else { v.clone() })).collect(),
+        2 | 4 | 5 => ps.iter().map(|(k, v)| (*k, (0..v.len()).map(|i| if value_unsafe(cause, *k, v, i) { b'a' } else { v[i] }).collect())).collect(),
         _ => svcb_drop(ps, &|k, v| (v.is_empty() && k != 2 && k != 8) || (k == 1 && alpn_has_empty_id(v))),
     }
 }
 fn svcb_classify(rec: &Rec, tname: &str, k: char, kname: &str) -> String {
     let rd = rdata_wire(rec.data());
     let (head, ps) = match svcb_split(&rd) { Some(x) => x, None => return format!("svcb_unparsed_{}", kname) };
-    let present: Vec<usize> = (0..4).filter(|c| svcb_has(*c, &ps)).collect();
+    let present: Vec<usize> = SVCB_NECESSITY_ORDER.iter().copied().filter(|c| svcb_has(*c, &ps)).collect();
     let ok_with = |ps: &Params| with_parts(rec, None, Some(&svcb_join(&head, ps))).map_or(false, |r| passes(&r, tname, k, kname));
     // one root cause alone explains the failure
     for c in &present { if ok_with(&svcb_repair(*c, &ps)) { return SVCB_CAUSES[*c].to_string(); } }
-    // all of them together do
-    let mut all = ps.clone();
-    for c in &present { all = svcb_repair(*c, &all); }
-    if !present.is_empty() && ok_with(&all) { return SVCB_CAUSES[present[0]].to_string(); }
+    // several together do: name the first one that is necessary (without its repair the record still fails)
+    let repair_all = |skip: Option<usize>| { let mut all = ps.clone(); for c in &present { if Some(*c) != skip { all = svcb_repair(*c, &all); } } all };
+    if !present.is_empty() && ok_with(&repair_all(None)) {
+        for c in &present { if !ok_with(&repair_all(Some(*c))) { return SVCB_CAUSES[*c].to_string(); } }
+    }
     format!("svcb_params_unexplained_{}", tname)
 }
 
@@ -453,7 +471,27 @@ fn classify(rec: &Rec, tname: &str, k: char, kname: &str) -> String {
     let rd = rdata_wire(rec.data());
     if tname == "TXT" && rd.is_empty() { return "txt_no_strings".into(); }
     if tname == "SVCB" || tname == "HTTPS" { return svcb_classify(&rec, tname, k, kname); }
-    if let Ok(Ok(s)) = write_rec(&rec, 's') { if has_empty_token(&s) { return format!("empty_field_{}", tname); } }
+    if let Ok(Ok(s)) = write_rec(&rec, 's') {
+        if has_empty_token(&s) {
+            // exact root cause for the known classes: the field that is empty, and the same
+            // record with that field filled in reads back
+            let repaired: Option<Vec<u8>> = match tname {
+                "NSEC3" if rd.len() > 5 => {
+                    let hpos = 5 + rd[4] as usize;
+                    if rd.get(hpos) == Some(&0) { let mut x = rd.clone(); x[hpos] = 1; x.insert(hpos + 1, 0xab); Some(x) } else { None }
+                }
+                "CAA" if rd.len() > 1 && rd[1] == 0 => { let mut x = rd.clone(); x[1] = 1; x.insert(2, b'a'); Some(x) }
+                _ => None,
+            };
+            return match tname {
+                "NSEC3" | "CAA" => match repaired.and_then(|x| with_parts(&rec, None, Some(&x))) {
+                    Some(r2) if passes(&r2, tname, k, kname) => format!("empty_field_{}", tname),
+                    _ => format!("roundtrip_{}_{}", tname, kname),
+                },
+                _ => format!("empty_field_{}", tname),
+            };
+        }
+    }
     format!("roundtrip_{}_{}", tname, kname)
 }
 
@@ -652,7 +690,7 @@ fn show_txt(rec: &ScannedRecord) -> Option<String> {
 // ---------------------------------------------------------------- typed records of the regular types (T2 `rec`)
 
 #[derive(Clone, Copy)]
-enum Fs { U8, U16, U32, Name, Cstr, B16, B64, Ip4, Ip6, Rt, Cstrs }
+enum Fs { U8, U16, U32, Name, Cstr, B16, B64, Ip4, Ip6, Rt, Cstrs, Types, Salt, B32, Tag, Quoted }
 use Fs::*;
 /// (rtype, fields in presentation order = wire order, only static comments in the multi-line form)
 const REGULAR: &[(u16, &[Fs], bool)] = &[
@@ -664,6 +702,8 @@ const REGULAR: &[(u16, &[Fs], bool)] = &[
     (43, &[U16, U8, U8, B16], false), (59, &[U16, U8, U8, B16], false), (44, &[U8, U8, B16], true),
     (46, &[Rt, U8, U8, U32, U32, U32, U16, Name, B64], false), (48, &[U16, U8, U8, B64], false), (60, &[U16, U8, U8, B64], false),
     (52, &[U8, U8, U8, B16], false), (61, &[B64], true), (63, &[U32, U8, U8, B16], false),
+    (47, &[Name, Types], true), (50, &[U8, U8, U16, Salt, B32, Types], false), (51, &[U8, U8, U16, Salt], false),
+    (257, &[U8, Tag, Quoted], true),
 ];
 
 /// one field: (wire octets, token of the case line)
@@ -677,11 +717,27 @@ fn gen_field(r: &mut Rng, f: Fs) -> (Vec<u8>, String) {
         // binary fields: the octets; the model computes the Base16 / Base64 text (C18 models)
         B16 => { let b = gen_blob(r, 48); let t = format!("x{}", hex(&b)); (b, t) }
         B64 => { let b = gen_blob(r, 60); let t = format!("y{}", hex(&b)); (b, t) }
-        Ip4 => { let b = r.bytes(4); let t = format!("{}", std::net::Ipv4Addr::new(b[0], b[1], b[2], b[3])); (b, format!("w{}", hex(t.as_bytes()))) }
+        Ip4 => { let b: Vec<u8> = (0..4).map(|_| match r.below(4) { 0 => 0, 1 => *r.pick(&[1u8, 9, 10, 99, 100, 199, 200, 255]), _ => r.u8() }).collect(); let t = format!("i{}", hex(&b)); (b, t) }
         Ip6 => { let b = match r.below(3) { 0 => vec![0u8; 16], _ => r.bytes(16) }; let mut a = [0u8; 16]; a.copy_from_slice(&b);
                  let t = format!("{}", std::net::Ipv6Addr::from(a)); (b, format!("w{}", hex(t.as_bytes()))) }
         Rt => { let v = match r.below(3) { 0 => ext_u16(r), _ => ZONE_TYPES[r.below(ZONE_TYPES.len() as u64 - 1) as usize].0 };
-                let t = format!("{}", Rtype::from_int(v)); (v.to_be_bytes().to_vec(), format!("w{}", hex(t.as_bytes()))) }
+                (v.to_be_bytes().to_vec(), format!("m{}", v)) }
+        Types => {
+            let n = match r.below(5) { 0 => 0, 1 => 1, _ => 1 + r.below(12) as usize };
+            let mut ts: Vec<u16> = (0..n).map(|_| match r.below(4) { 0 => ext_u16(r), 1 => r.below(70) as u16, 2 => 250 + r.below(12) as u16, _ => ZONE_TYPES[r.below(ZONE_TYPES.len() as u64 - 1) as usize].0 }).collect();
+            ts.sort(); ts.dedup();
+            let mut w = Vec::new(); let mut i = 0;
+            while i < ts.len() {
+                let win = (ts[i] >> 8) as u8; let mut bits = [0u8; 32]; let mut last = 0usize;
+                while i < ts.len() && (ts[i] >> 8) as u8 == win { let lo = (ts[i] & 0xff) as usize; bits[lo / 8] |= 0x80 >> (lo % 8); last = lo / 8; i += 1; }
+                w.push(win); w.push(last as u8 + 1); w.extend(&bits[..=last]);
+            }
+            (w, format!("t{}", ts.iter().map(|x| x.to_string()).collect::<Vec<_>>().join(",")))
+        }
+        Salt => { let b = gen_blob(r, 20); let mut w = vec![b.len() as u8]; w.extend(&b); (w, format!("s{}", hex(&b))) }
+        B32 => { let b = { let mut b = gen_blob(r, 32); if b.is_empty() && r.chance(3, 4) { b.push(r.u8()); } b }; let mut w = vec![b.len() as u8]; w.extend(&b); (w, format!("z{}", hex(&b))) }
+        Tag => { let n = 1 + r.below(8) as usize; let b: Vec<u8> = (0..n).map(|_| *r.pick(b"abcxyzABCXYZ0123456789")).collect(); let mut w = vec![n as u8]; w.extend(&b); (w, format!("w{}", hex(&b))) }
+        Quoted => { let b = gen_blob(r, 60); let t = format!("o{}", hex(&b)); (b, t) }
         Cstrs => {
             let n = 1 + r.below(3) as usize; let mut w = Vec::new(); let mut ts = Vec::new();
             for _ in 0..n { let c = gen_charstr(r); ts.push(hex(&c[1..])); w.extend(c); }
@@ -823,21 +879,67 @@ fn main() {
                 _ => tok.push(*r.pick(b"abcxyzABC0123456789-_")),
             }
         }
+        let txt = i % 3 == 2;
         idx += 1; if !out.wants(idx) { continue; }
-        let c = format!("hinfo {} {}", if q { "q" } else { "u" }, hex(&tok));
+        let c = format!("{} {} {}", if txt { "txt1" } else { "hinfo" }, if q { "q" } else { "u" }, hex(&tok));
         out.begin(&c);
-        let mut line = b". 0 IN HINFO ".to_vec();
+        let mut line = if txt { b". 0 IN TXT ".to_vec() } else { b". 0 IN HINFO ".to_vec() };
         if q { line.push(b'"'); }
         line.extend(&tok);
         if q { line.push(b'"'); }
-        line.extend(b" \"\"\n");
+        line.extend(if txt { &b"\n"[..] } else { &b" \"\"\n"[..] });
         let obs = match read_text(&line, None) {
             Err(_) => "Panic".to_string(),
             Ok(Err(_)) => "Err".to_string(),
-            Ok(Ok(v)) if v.len() == 1 => match v[0].data() { ZoneRecordData::Hinfo(h) => format!("Ok {}", hex(h.cpu().as_slice())), _ => "Err".to_string() },
+            Ok(Ok(v)) if v.len() == 1 => match v[0].data() {
+                ZoneRecordData::Hinfo(h) => format!("Ok {}", hex(h.cpu().as_slice())),
+                ZoneRecordData::Txt(t) => { let v: Vec<_> = t.iter_charstrs().collect(); if v.len() == 1 { format!("Ok {}", hex(v[0].as_slice())) } else { "Err".to_string() } }
+                _ => "Err".to_string() },
             Ok(Ok(_)) => "Err".to_string(),
         };
         out.case(&c, &obs, tok.contains(&0x7f) || tok.contains(&b'\\'), "reader_octets");
+    }
+
+
+    // ---- T2: scan_name / convert_label (with its fast path) on raw name text (". 0 IN NS <text>")
+    let n_ns = (if a.thorough { 15000 } else { 2000 }) * a.scale as usize;
+    let fixed_ns: Vec<Vec<u8>> = vec![b"a..b.".to_vec(), b".".to_vec(), b"..".to_vec(), b".a.".to_vec(), b"@".to_vec(), b"a.@.".to_vec(), b"\\#".to_vec(),
+        b"a\x7f.b.".to_vec(), b"\\000\x7f.".to_vec(), [vec![b'a'; 63], b".".to_vec()].concat(), [vec![b'a'; 64], b".".to_vec()].concat(),
+        { let mut v = Vec::new(); for _ in 0..4 { v.extend(vec![b'x'; 62]); v.push(b'.'); } v.extend(b"a."); v },
+        { let mut v = Vec::new(); for _ in 0..4 { v.extend(vec![b'x'; 62]); v.push(b'.'); } v.extend(b"ab."); v },
+        b"1.2.3.4".to_vec(),
+        { let mut v = Vec::new(); for _ in 0..4 { v.extend(vec![b'x'; 62]); v.push(b'.'); } v.extend(b"abc."); v }];
+    for i in 0..n_ns + fixed_ns.len() {
+        let tok = if i < fixed_ns.len() { fixed_ns[i].clone() } else {
+            let mut t = Vec::new();
+            for _ in 0..1 + r.below(5) {
+                let n = match r.below(10) { 0 => 0, 1 => 62 + r.below(4) as usize, _ => 1 + r.below(5) as usize };
+                for _ in 0..n {
+                    match r.below(14) {
+                        0 => t.push(0x7f),
+                        1 => { t.push(b'\\'); t.push(*r.pick(b"\\.\";( a#@$")); }
+                        2 => t.extend(format!("\\{:03}", r.below(270)).bytes()),
+                        3 => t.push(*r.pick(b"@$#[]*!~")),
+                        4 => t.push(*r.pick(&[0x80u8, 0xc3, 0xa9, 0x1f])),
+                        _ => t.push(*r.pick(b"abcxyzABC0123456789-_")),
+                    }
+                }
+                if r.chance(9, 10) { t.push(b'.'); }
+            }
+            if t.is_empty() { t.push(b'.'); }
+            t
+        };
+        idx += 1; if !out.wants(idx) { continue; }
+        let c = format!("nstext {}", hex(&tok));
+        out.begin(&c);
+        let mut line = b". 0 IN NS ".to_vec(); line.extend(&tok); line.push(b'\n');
+        let obs = match read_text(&line, None) {
+            Err(_) => "Panic".to_string(),
+            Ok(Err(_)) => "Err".to_string(),
+            Ok(Ok(v)) if v.len() == 1 => match v[0].data() { ZoneRecordData::Ns(ns) => format!("Ok {}", hex(ns.nsdname().to_name::<Vec<u8>>().as_slice())), _ => "Err".to_string() },
+            Ok(Ok(_)) => "Err".to_string(),
+        };
+        out.case(&c, &obs, true, "reader_name");
     }
 
     // ---- T2: regular record types field by field (`rec`): the model renders the record with the
@@ -886,6 +988,9 @@ fn main() {
         // SVCB / HTTPS: parameters with an empty value are written as nothing at all
         Case { owner: vec![0], class: 1, ttl: 0, rt: 65, rdata: vec![0, 0, 0, 0, 4, 0, 0] },
         Case { owner: vec![0], class: 1, ttl: 0, rt: 64, rdata: vec![0, 1, 0, 0, 1, 0, 0] },
+        // fixed in 72650b2, must stay silent: a dohpath with a line feed, blank and non-ASCII UTF-8; an unknown key whose value is `)`
+        Case { owner: vec![0], class: 1, ttl: 0, rt: 64, rdata: vec![0, 1, 0, 0, 7, 0, 5, 0x0a, 0x2d, 0x20, 0xc3, 0xa9] },
+        Case { owner: vec![0], class: 1, ttl: 0, rt: 65, rdata: vec![0, 1, 0, 0x61, 0, 0, 1, 0x29] },
         Case { owner: b"\x07$ORIGIN\x01$\x00".to_vec(), class: 1, ttl: 0, rt: 15, rdata: b"\x00\x0a\x04$TTL\x00".to_vec() },
     ];
     let mut per_type_stats: BTreeMap<String, (u64, u64)> = BTreeMap::new();
